@@ -573,13 +573,17 @@ class ResultTypesGenerator:
             )
 
     def _get_all_related_fragments(self) -> Set[str]:
-        fragments_names: Set[str] = self._fragments_used_as_mixins.copy()
-        for fragment_name in self._fragments_used_as_mixins:
+        # fragments spread inside used fragments are part of the document too,
+        # also when they were not applicable for any of generated classes
+        fragments_names: Set[str] = self._fragments_used_as_mixins.union(
+            self._unpacked_fragments
+        )
+        for fragment_name in sorted(fragments_names):
             fragment_def = self.fragments_definitions[fragment_name]
             fragments_names = fragments_names.union(
                 self._get_fragments_names(fragment_def.selection_set)
             )
-        return fragments_names.union(self._unpacked_fragments)
+        return fragments_names
 
     def _get_fragments_names(self, selection_set: SelectionSetNode) -> Set[str]:
         names: Set[str] = set()
